@@ -202,7 +202,7 @@ def corrupted_line_is_rejected(ctx, lines, verdict):
                 raise vlib.Inconclusive("trace validation accepted a corrupted search reply (line %d)" % (i + 1))
             return {"corrupted_trace_line": i + 1, "rejected": True,
                     "request": e["p"], "real_reply": e["r"]["data"], "corrupted_reply": mut[i]["r"]["data"]}
-    raise vlib.Inconclusive("no search line suitable for the corrupted-trace demonstration")
+    return None
 
 
 # ------------------------------------------------------------------ main
@@ -216,6 +216,13 @@ def run(ctx):
     th.start()
     try:
         cov = _run_bindings(ctx)
+    except vlib.Inconclusive as e:
+        th.join()
+        if ctx.violations:
+            # A reproduced disagreement stands even if a later phase could not be completed.
+            ctx.log("later phase inconclusive: %s" % str(e)[:300])
+            return ctx.finish("model_checking", {"exhaustive": False, "incomplete": str(e)[:300]})
+        raise
     finally:
         th.join()
     if "err" in mcres:
@@ -321,7 +328,7 @@ def _run_bindings(ctx):
                 ctx.disagreement(None, {"dir": "B", "what": "payload", "hist": hst, "seed": ctx.seed, "detail": r["d"]},
                                  "payload differs in history %d: %s" % (hst, json.dumps(r["d"])[:300]))
         lines, verdict, wants = validate_history(ctx, hst, rows_b)
-        if hst == 0:
+        if binding_demo is None and not verdict["stuck"]:
             binding_demo = corrupted_line_is_rejected(ctx, lines, verdict)
         tlines += len(lines)
         tbytes += sb.get("bytes", 0)
@@ -371,6 +378,8 @@ def _run_bindings(ctx):
             raise vlib.Inconclusive("trace spec read %s of %d lines" % (verdict["n"], len(lines)))
     if tlines == 0:
         raise vlib.Inconclusive("no trace lines validated")
+    if binding_demo is None and not ctx.violations:
+        raise vlib.Inconclusive("no search line suitable for the corrupted-trace demonstration")
 
     exhaustive = summ["covered"] == summ["groups"]
     nontrivial = sum(1 for g in groups if len(g["dsts"]) > 1 or g["dsts"][0] != g["src"])
